@@ -295,7 +295,32 @@ func c06Walk(r *c06Reader, total int) (string, string) {
 	return L(steps...), Bytes(r.left())
 }
 
+// c06InsertEmpties inserts an empty chunk before the chunk of index p mod len(cs), for each p in
+// turn (Model: Run/PbcmplWalkOps.v insert_empties); positions are non-negative.
+func c06InsertEmpties(pos []int64, cs [][]byte) [][]byte {
+	for _, p := range pos {
+		if len(cs) == 0 {
+			continue
+		}
+		at := int(p % int64(len(cs)))
+		cs = append(cs[:at], append([][]byte{{}}, cs[at:]...)...)
+	}
+	return cs
+}
+
 func init() {
+	// [kind, [msg...], chunk pattern, eof with the last chunk, positions of empty chunks]
+	Exec["pbcmpl.Roundtrip/empties"] = func(a []V) string {
+		kind := a[0].Int()
+		w := &c06Writer{}
+		for _, mv := range a[1].L {
+			pbcmpl.Marshal(w, c06Msg(kind, mv))
+		}
+		r := c06NewReader(w.out, a[2].I64s(), 0, a[3].Bool())
+		r.chunks = c06InsertEmpties(a[4].I64s(), r.chunks)
+		steps, left := c06RunStream(kind, r, len(w.out))
+		return L(Bytes(w.out), steps, left)
+	}
 	// [kind, [msg...], chunk pattern, eof with the last chunk]
 	Exec["pbcmpl.Walk/frames"] = func(a []V) string {
 		kind := a[0].Int()
@@ -546,6 +571,43 @@ func genC06(g *Gen) {
 		}
 		roundtrip(kind, msgs, lens, vlens, c06Pattern(g.R), g.R.Intn(3) == 0, fmt.Sprintf("rand-frames%d", nf))
 	}
+	// (6) widening: readers that return (0, nil) between chunks: empty chunks at the start, at frame and
+	// header/body boundaries (pattern {32, body}) and at random places
+	empties := func(kind int, msgs []string, pat []int64, wl bool, pos []int64, bucket string) {
+		g.Stat(bucket)
+		g.Do("pbcmpl.Roundtrip/empties", L(Int(kind), L(msgs...), I64s(pat), B(wl), I64s(pos)),
+			fmt.Sprintf("emp/k%d/f%d/%s/wl%s/e%d", kind, len(msgs), c06PatClass(pat), B(wl), len(pos)))
+	}
+	for kind := 0; kind <= 1; kind++ {
+		for _, bl := range []int{0, 1, 33, 513} {
+			m := c06MsgText(true, c06Ver(g.R, g.R.Range(0, 16), 0), c06Payloadgen(g.R, bl))
+			for _, pos := range [][]int64{{0}, {1}, {0, 0}, {1, 1, 1}, {0, 2, 4}} {
+				empties(kind, []string{m}, []int64{32, 7}, len(pos)%2 == 0, pos, "empties-boundary")
+				empties(kind, []string{m, m}, []int64{int64(32 + bl + 2)}, len(pos)%2 == 1, pos, "empties-frame-boundary")
+			}
+		}
+	}
+	n = g.N(300, 8000)
+	for i := 0; i < n; i++ {
+		kind := g.R.Intn(2)
+		nf := g.R.Range(1, 4)
+		var msgs []string
+		for f := 0; f < nf; f++ {
+			bl := g.R.Pick(0, 1, 31, 32, 33, g.R.Range(0, 200), g.R.Range(0, 12))
+			hasver := g.R.Intn(4) != 0
+			ver := ""
+			if hasver {
+				ver = c06Ver(g.R, g.R.Range(0, 16), g.R.Intn(3))
+			}
+			msgs = append(msgs, c06MsgText(hasver, ver, c06Payloadgen(g.R, bl)))
+		}
+		pos := make([]int64, g.R.Range(1, 5))
+		for j := range pos {
+			pos[j] = int64(g.R.Intn(40))
+		}
+		empties(kind, msgs, c06Pattern(g.R), g.R.Intn(3) == 0, pos, fmt.Sprintf("empties-rand%d", nf))
+	}
+
 	// (5) widening: the same kinds of streams walked with ReadHeader + io.ReadFull (no decoding)
 	walk := func(kind int, msgs []string, maxl int, pat []int64, wl bool, bucket string) {
 		g.Stat(bucket)
